@@ -144,7 +144,11 @@ macro_rules! vcheck {
         #[cfg(kani)]
         {
             let _ = &$s;
-            assert!($c, $id);
+            let c_: bool = $c;
+            // the negation as a cover goal: Kani's concrete playback reliably prints values for covers, which is
+            // how the driver extracts the counterexample (UNSATISFIABLE here is the good outcome)
+            kani::cover!(!c_, $id);
+            assert!(c_, $id);
         }
         #[cfg(not(kani))]
         {
